@@ -1,6 +1,14 @@
 package main
 
-import "fmt"
+import (
+	"fmt"
+
+	"github.com/emirpasic/gods/v2/maps/treebidimap"
+	"github.com/emirpasic/gods/v2/maps/treemap"
+	"github.com/emirpasic/gods/v2/trees/avltree"
+	"github.com/emirpasic/gods/v2/trees/btree"
+	"github.com/emirpasic/gods/v2/trees/redblacktree"
+)
 
 func keyCmp(name string) func(a, b Key) int {
 	switch name {
@@ -25,6 +33,8 @@ func intCmp(name string) func(a, b int) int {
 		return func(a, b int) int { return (b - a) * 7 }
 	case "coarse":
 		return func(a, b int) int { return a/2 - b/2 }
+	case "coarsej": // ties between the JSON grammar's keys 1 and 2
+		return func(a, b int) int { return (a+1)/2 - (b+1)/2 }
 	default:
 		return func(a, b int) int {
 			switch {
@@ -37,6 +47,10 @@ func intCmp(name string) func(a, b int) int {
 		}
 	}
 }
+
+// intU: the integer universe {0, .., u-1} — it contains the zero value of the element type on
+// purpose (a 0 element must be distinguishable from a cleared slot / a "not found" answer).
+func intU(u int) []int { return intRange(0, u-1) }
 
 func intRange(lo, hi int) []int {
 	var r []int
@@ -56,18 +70,44 @@ func kvSysFromJob(j Job) Sys {
 		if kind == "treeset" {
 			fresh = func(i int) Val { return 0 }
 		}
-		return &KVSys[Key, Val]{Kind: kind, Order: j.p("m", 3), CmpN: cmpN, N: j.p("n", 8), Rank: true,
+		return &KVSys[Key, Val]{Kind: kind, Order: j.p("m", 3), CmpN: cmpN, N: j.p("n", 8), Rank: true, Lite: j.p("lite", 0) == 1,
 			Fresh: fresh, KCmp: keyCmp(cmpN), VCmp: func(a, b Val) int { return int(a - b) }, PropsL: kvProps}
 	}
 	u := j.p("u", 4)
 	if kind == "treebidimap" || kind == "hashbidimap" {
-		return &KVSys[int, int]{Kind: kind, CmpN: cmpN, VCmpN: vcmpN, N: j.p("n", u), KU: intRange(1, u), VU: intRange(1, j.p("vu", u)),
+		sys := &KVSys[int, int]{Kind: kind, CmpN: cmpN, VCmpN: vcmpN, N: j.p("n", u), KU: intU(u), VU: intU(j.p("vu", u)),
 			KCmp: intCmp(cmpN), VCmp: intCmp(vcmpN), PropsL: kvProps,
-			Probes: func(live []int) []int { return []int{0, u + 1} }}
+			Probes: func(live []int) []int { return []int{-2, u + 2} }}
+		if j.s("ctor", "") == "default" && kind == "treebidimap" {
+			sys.Label = "/New()"
+			sys.KCmp, sys.VCmp = intCmp("nat"), intCmp("nat")
+			sys.Custom = func(b *kvBox[int, int]) *kvAPI[int, int] { return wrapTreeBidiMap(treebidimap.New[int, int]()) }
+		}
+		return sys
 	}
-	return &KVSys[int, Val]{Kind: kind, Order: j.p("m", 3), CmpN: cmpN, N: j.p("n", u), KU: intRange(1, u),
+	sys := &KVSys[int, Val]{Kind: kind, Order: j.p("m", 3), CmpN: cmpN, N: j.p("n", u), KU: intU(u),
 		Fresh: func(i int) Val { return Val(i) }, KCmp: intCmp(cmpN), VCmp: func(a, b Val) int { return int(a - b) }, PropsL: kvProps,
-		Probes: func(live []int) []int { return []int{0, u + 1} }}
+		Probes: func(live []int) []int { return []int{-2, u + 2} }}
+	if j.s("ctor", "") == "default" {
+		// the default constructors New[K cmp.Ordered]() (natural order through cmp.Compare)
+		sys.Label = "/New()"
+		sys.KCmp = intCmp("nat")
+		order := sys.Order
+		sys.Custom = func(b *kvBox[int, Val]) *kvAPI[int, Val] {
+			switch kind {
+			case "rbt":
+				return wrapRBT(redblacktree.New[int, Val]())
+			case "avl":
+				return wrapAVL(avltree.New[int, Val]())
+			case "btree":
+				return wrapBT(btree.New[int, Val](order), order)
+			case "treemap":
+				return wrapTreeMap(treemap.New[int, Val]())
+			}
+			panic("tool error: no default constructor job for " + kind)
+		}
+	}
+	return sys
 }
 
 func init() {
@@ -104,6 +144,12 @@ func kvTreeJobs(prop string, q bool, add func(kind, id string, w int, s map[stri
 	}
 	if !q {
 		trees = append(trees, tb{"btree", 7, 36}, tb{"btree", 8, 20}, tb{"btree", 9, 20})
+	}
+	// high orders: a node holds up to m-1 keys, so the in-node search dominates the work; the
+	// tree is a single root until m keys are alive (one state per size under the rank abstraction)
+	for _, hm := range [][2]int{{32, pick(40, 70)}, {64, pick(70, 135)}, {128, pick(132, 260)}} {
+		id := fmt.Sprintf("btree%d.nat.n%d", hm[0], hm[1])
+		add("kv", id, hm[1]*hm[1], map[string]string{"c": "btree", "cmp": "nat"}, map[string]int{"m": hm[0], "n": hm[1], "rank": 1, "lite": 1})
 	}
 	for _, t := range trees {
 		for _, c := range []string{"nat", "rev", "coarse"} {
